@@ -236,7 +236,8 @@ impl ShaderPackage {
     pub fn find_node(&self, selector: u32) -> Option<&Node> {
         for (sel, node) in &self.node_selectors {
             if *sel == selector {
-                return Some(&self.nodes[*node as usize]);
+                // an alias may name a node the file does not have
+                return self.nodes.get(*node as usize);
             }
         }
 
